@@ -111,6 +111,67 @@ def shquote(s):
 
 
 # ---------------------------------------------------------------------------
+# result cache: a verdict is a deterministic function of (sources of /repo's two crates,
+# harness crate + bytes model sources, Kani flags, harness name).  Several properties share
+# the client state-machine harnesses; the cache lets the second property reuse the verdict
+# CBMC produced for the first one ON IDENTICAL INPUTS instead of re-solving it.  Any edit to
+# /repo or /verif changes the key.  VERIF_NO_CACHE=1 disables it.
+
+CACHE = os.path.join(TARGET, "cache")
+
+
+def _hash_tree(h, root, exts):
+    for dp, dn, fn in sorted(os.walk(root)):
+        dn[:] = sorted(d for d in dn if d not in ("target", ".git"))
+        for f in sorted(fn):
+            if f.endswith(exts):
+                fp = os.path.join(dp, f)
+                h.update(fp.encode())
+                try:
+                    h.update(open(fp, "rb").read())
+                except OSError:
+                    pass
+
+
+_INPUTS_KEY = None
+
+
+def inputs_key():
+    global _INPUTS_KEY
+    if _INPUTS_KEY is None:
+        h = hashlib.sha256()
+        for sub in ("rumqttc", "rumqttd"):
+            _hash_tree(h, os.path.join(REPO, sub), (".rs", ".toml"))
+        h.update(open(os.path.join(REPO, "Cargo.lock"), "rb").read())
+        _hash_tree(h, os.path.join(KANI_CRATE, "src"), (".rs",))
+        h.update(open(os.path.join(KANI_CRATE, "Cargo.toml"), "rb").read())
+        _hash_tree(h, os.path.join(VERIF, "shims", "bytes", "src"), (".rs",))
+        _INPUTS_KEY = h.hexdigest()
+    return _INPUTS_KEY
+
+
+def cache_path(kind, name, flags):
+    k = hashlib.sha256((inputs_key() + "|" + kind + "|" + name + "|" + flags).encode()).hexdigest()[:32]
+    return os.path.join(CACHE, k + ".json")
+
+
+def cache_get(kind, name, flags):
+    if os.environ.get("VERIF_NO_CACHE"):
+        return None
+    try:
+        return json.load(open(cache_path(kind, name, flags)))
+    except Exception:
+        return None
+
+
+def cache_put(kind, name, flags, obj):
+    os.makedirs(CACHE, exist_ok=True)
+    tmp = cache_path(kind, name, flags) + ".tmp%d" % os.getpid()
+    json.dump(obj, open(tmp, "w"))
+    os.replace(tmp, cache_path(kind, name, flags))
+
+
+# ---------------------------------------------------------------------------
 # running Kani
 
 
@@ -180,11 +241,50 @@ def parse_stage(data, logpath):
     return out
 
 
+def cached_stage(filters, flags):
+    """All verdicts of a stage from the cache, or None if anything is missing / undecided."""
+    recs = {}
+    for f in filters:
+        idx = cache_get("index", f, flags)
+        if idx is None:
+            return None
+        for h in idx:
+            r = cache_get("rec", h, flags)
+            if r is None:
+                return None
+            recs[h] = r
+    return recs
+
+
+def store_stage(filters, flags, recs):
+    # only decided verdicts are worth keeping; a timeout may pass next time on a quieter machine
+    if any(r["status"] not in ("Success", "Failure") or (r["status"] == "Failure" and not r["failed"])
+           for r in recs.values()):
+        return
+    for f in filters:
+        cache_put("index", f, flags, sorted(h for h in recs if f in h))
+    for h, r in recs.items():
+        r2 = dict(r)
+        r2["cached_at"] = time.strftime("%Y-%m-%dT%H:%M:%SZ", time.gmtime())
+        cache_put("rec", h, flags, r2)
+
+
 def harnesses_listed(data):
     return [h["pretty_name"] for h in (data or {}).get("harness_metadata", [])]
 
 
-def classify(rec):
+LABEL = re.compile(r"^(C\d\d):")
+
+
+def relevant(f, prop):
+    """Harnesses shared between properties label each assertion with the property it belongs to
+    ("C07: ..."); a check of property P looks at P's labels and at unlabelled checks (panics,
+    overflow, out-of-bounds - they break every property).  Other labels are P's sibling's business."""
+    m = LABEL.match(f["description"])
+    return (m is None) or (m.group(1) == prop)
+
+
+def classify(rec, prop=None):
     """decided-pass / vacuous / undecided / failed"""
     if rec["status"] == "Success":
         if rec["covers_unsatisfied"]:
@@ -193,10 +293,16 @@ def classify(rec):
             return "undecided"
         return "pass"
     fails = rec["failed"]
-    real = [f for f in fails if not is_unwind(f)]
+    if not fails:
+        return "undecided"  # timeout, OOM, CBMC error
+    if any(is_unwind(f) for f in fails):
+        return "undecided"  # an unwinding assertion failed: the bound is too small, nothing is decided
+    real = [f for f in fails if relevant(f, prop)]
     if real:
         return "failed"
-    return "undecided"  # timeout, OOM, CBMC error, unwinding assertion only
+    if rec["covers_unsatisfied"]:
+        return "vacuous"
+    return "pass"  # only sibling-property assertions failed; reported by their own check
 
 
 def is_unwind(f):
@@ -354,6 +460,7 @@ def check_property(prop, tier, seed):
     fam_of = {}
     stage_logs = []
     broken = []
+    reused = 0
     for i, (key, fl) in enumerate(sorted(stages.items(), key=lambda kv: kv[0][0])):
         to, jobs, mem, extra = key
         filters = []
@@ -363,20 +470,28 @@ def check_property(prop, tier, seed):
         name = "stage%d" % i
         log("[%s] %s: cargo kani, %d filter(s) %s, -j %d, harness timeout %ds"
             % (prop, name, len(filters), filters if len(filters) <= 6 else filters[:6] + ["..."], jobs, to))
-        rc, dt, data, lg = kani_stage(prop, name, filters, jobs, to, mem, list(extra), tdir, outdir)
-        stage_logs.append(lg)
-        if data is None:
-            tail = "".join(l for l in open(lg, errors="replace").readlines()[-60:] if not NOISE.search(l))
-            log("[%s] %s produced no JSON export (rc=%s). Log tail:\n%s" % (prop, name, rc, tail))
-            broken.append("stage %s: no result (build failure or crash), see %s" % (name, lg))
-            continue
-        recs = parse_stage(data, lg)
-        listed = harnesses_listed(data)
-        for h in listed:
-            if h not in recs:
-                recs[h] = {"harness": h, "status": "NoResult", "duration_s": 0, "failed": [],
-                           "covers_satisfied": [], "covers_unsatisfied": [], "undetermined": [],
-                           "props": {}, "stats": {}, "error": {}, "source": {}}
+        flags = "to=%s|mem=%s|extra=%s" % (to, mem, ",".join(extra))
+        recs = cached_stage(filters, flags)
+        if recs is not None:
+            log("[%s] %s: all %d harness verdict(s) reused from the cache (identical /repo + /verif inputs)"
+                % (prop, name, len(recs)))
+            reused += len(recs)
+        else:
+            rc, dt, data, lg = kani_stage(prop, name, filters, jobs, to, mem, list(extra), tdir, outdir)
+            stage_logs.append(lg)
+            if data is None:
+                tail = "".join(l for l in open(lg, errors="replace").readlines()[-60:] if not NOISE.search(l))
+                log("[%s] %s produced no JSON export (rc=%s). Log tail:\n%s" % (prop, name, rc, tail))
+                broken.append("stage %s: no result (build failure or crash), see %s" % (name, lg))
+                continue
+            recs = parse_stage(data, lg)
+            listed = harnesses_listed(data)
+            for h in listed:
+                if h not in recs:
+                    recs[h] = {"harness": h, "status": "NoResult", "duration_s": 0, "failed": [],
+                               "covers_satisfied": [], "covers_unsatisfied": [], "undetermined": [],
+                               "props": {}, "stats": {}, "error": {}, "source": {}}
+            store_stage(filters, flags, recs)
         for f in fl:
             got = [h for h in recs if any(flt in h for flt in f["filters"])]
             if len(got) < f.get("min_harnesses", 1):
@@ -387,7 +502,7 @@ def check_property(prop, tier, seed):
         results.update(recs)
 
     # classify
-    verdicts = {h: classify(r) for h, r in results.items()}
+    verdicts = {h: classify(r, prop) for h, r in results.items()}
     violations, known_lines, inconclusive = [], [], []
     for h, v in sorted(verdicts.items()):
         r = results[h]
@@ -405,7 +520,7 @@ def check_property(prop, tier, seed):
             broken.append("harness %s undecided: %s" % (h, why))
             continue
         # failed: extract a concrete counterexample and replay it natively
-        descs = sorted(set(f["description"] for f in r["failed"] if not is_unwind(f)))
+        descs = sorted(set(f["description"] for f in r["failed"] if not is_unwind(f) and relevant(f, prop)))
         log("[%s] harness %s FAILED in the solver: %s" % (prop, h, descs))
         fam = fam_of.get(h, {})
         to = fam.get("timeout_" + tier, fam.get("timeout", 300 if tier == "quick" else 1800))
@@ -441,7 +556,7 @@ def check_property(prop, tier, seed):
 
     wall = time.time() - t0
     write_evidence(prop, tier, seed, fams, results, verdicts, violations, known_lines,
-                   inconclusive, broken, guards, wall)
+                   inconclusive, broken, guards, wall, reused)
 
     for l in sorted(set(known_lines)):
         log(l)
@@ -464,7 +579,7 @@ def check_property(prop, tier, seed):
 
 
 def write_evidence(prop, tier, seed, fams, results, verdicts, violations, known_lines,
-                   inconclusive, broken, guards, wall):
+                   inconclusive, broken, guards, wall, reused=0):
     P = registry.PROPS[prop]
     obligations = sum(r["props"].get("total_properties", 0) for r in results.values())
     discharged = sum(r["props"].get("passed", 0) + r["props"].get("satisfied", 0)
@@ -491,7 +606,9 @@ def write_evidence(prop, tier, seed, fams, results, verdicts, violations, known_
             "cbmc_checks_passed": r["props"].get("passed", 0),
             "covers_satisfied": r["covers_satisfied"],
             "covers_unsatisfied": r["covers_unsatisfied"],
-            "failed_checks": sorted(set(f["description"] for f in r["failed"])),
+            "failed_checks": sorted(set(f["description"] for f in r["failed"] if relevant(f, prop))),
+            "failed_checks_of_other_properties": sorted(set(f["description"] for f in r["failed"] if not relevant(f, prop))),
+            "verdict_cached_at": r.get("cached_at"),
             "wall_s": round(r["duration_s"], 2),
             "symex_s": r["stats"].get("runtime_symex_s"),
             "solver_s": r["stats"].get("runtime_solver_s"),
@@ -550,6 +667,9 @@ def write_evidence(prop, tier, seed, fams, results, verdicts, violations, known_
             "solver": "CBMC 6.11.0 / CaDiCaL via Kani 0.68.0 (goto-program compiled from /repo working tree)",
             "queries_discharged": sum(1 for v in verdicts.values() if v == "pass"),
             "queries_total": len(results),
+            "verdicts_reused_from_cache": reused,
+            "cache_note": "a verdict is reused only when /repo's rumqttc+rumqttd sources, Cargo.lock, the harness "
+                          "crate, the bytes model and the Kani flags hash to the same key as the run that produced it",
             "symex_time_s": round(symex, 2),
             "solver_time_s": round(solver, 2),
             "vccs_generated": vccs,
